@@ -115,6 +115,18 @@ def run(ctx):
                     ext_of = {d: os.path.splitext(os.listdir(d)[0])[1] for d in dirs}
                     lists = [tuple(os.path.join(d, f"s{s}{ext_of[d]}") for s in range(n_in[2])) for d in dirs]
                     slices_to_precomputed.slices_to_raw_chunks(lists, dest, code, options=opts)
+                elif rng.random() < 0.4:
+                    # through the command line (argparse glue: nargs="+" directories, --input-orientation, storage flags)
+                    argv = ["slices-to-precomputed"] + dirs + [dest, "--input-orientation", code]
+                    argv += ["--flat"] if opts["flat"] else []
+                    argv += ["--no-gzip"] if not opts["gzip"] else []
+                    ctx.bump("cli_runs")
+                    try:
+                        rc_ = slices_to_precomputed.main(argv)
+                    except SystemExit as exc:
+                        rc_ = exc.code
+                    if rc_ not in (0, None):
+                        raise RuntimeError(f"slices-to-precomputed exit status {rc_}")
                 else:
                     slices_to_precomputed.convert_slices_in_directory([pathlib.Path(d) for d in dirs], dest,
                                                                       input_orientation=code, options=opts)
